@@ -297,16 +297,30 @@ func (e *kinEnv) batch(msgs, script string) string {
 	b := kbatch.NewKinesisBatch("pk", kutils.KINESIS_PART_BATCH)
 	if msgs != "-" {
 		for _, m := range strings.Split(msgs, ",") {
-			p := strings.Split(m, ":")
+			// "+…": a record near the per-record limit; "!…": such a record that the (nearly full) batch must
+			// refuse with can't-fit - the batcher then moves it to the next batch, it is no part of this one
+			big, refused := strings.HasPrefix(m, "+"), strings.HasPrefix(m, "!")
+			p := strings.Split(strings.TrimLeft(m, "+!"), ":")
 			if len(p) != 3 {
 				return "bad-op"
 			}
 			id, _ := strconv.Atoi(p[0])
 			key, _ := strconv.Atoi(p[1])
 			txn, _ := strconv.Atoi(p[2])
-			mm := &marshaller.MarshalledMessage{Operation: "INSERT", Table: "public.t", Json: mkJson(id, 8+id%5),
+			size := 8 + id%5
+			if big || refused {
+				size = kinBigRecord
+			}
+			mm := &marshaller.MarshalledMessage{Operation: "INSERT", Table: "public.t", Json: mkJson(id, size),
 				TimeBasedKey: kname(key), Transaction: tname(txn), WalStart: uint64(1000 + id), PartitionKey: "pk"}
-			if ok, err := b.Add(mm); !ok || err != nil {
+			ok, err := b.Add(mm)
+			if refused {
+				if ok || err == nil || err.Error() != transport.ERR_CANT_FIT {
+					return "harness-error expected-cant-fit"
+				}
+				continue
+			}
+			if !ok || err != nil {
 				return "harness-error add"
 			}
 		}
@@ -477,9 +491,27 @@ var (
 
 const kinEnumPerCase = 12
 
+// kinBigRecord: five of them (plus the 2-byte partition key each) fill a batch up to 5 MiB less 2,870 bytes, so a
+// sixth is refused with can't-fit while a few small records still fit
+const kinBigRecord = 1048000
+
 func kinMsgs(r *Rng, n, base int) string {
 	parts := []string{}
 	key := r.Range(1, 3)
+	if n == 6 && r.Chance(40) {
+		// a byte-full batch: five big records, then a record of the same or another transaction that is refused
+		for i := 0; i < 5; i++ {
+			if r.Chance(35) {
+				key = r.Range(1, 4)
+			}
+			parts = append(parts, fmt.Sprintf("+%d:%d:%d", base+i, key, key+10))
+		}
+		if r.Chance(50) {
+			key = r.Range(1, 4)
+		}
+		parts = append(parts, fmt.Sprintf("!%d:%d:%d", base+5, key, key+10))
+		return joinList(parts, ",")
+	}
 	for i := 0; i < n; i++ {
 		if r.Chance(35) {
 			key = r.Range(1, 4)
@@ -641,7 +673,10 @@ func kinesisMonitor(lines, outs []string, m *Model) []Violation {
 			order := []string{}
 			txnOf := map[string]string{}
 			for _, mm := range strings.Split(w[2], ",") {
-				p := strings.Split(mm, ":")
+				if strings.HasPrefix(mm, "!") { // refused by the batch: no part of it, must not be counted
+					continue
+				}
+				p := strings.Split(strings.TrimPrefix(mm, "+"), ":")
 				recs = append(recs, p[0])
 				if cnt[p[1]] == 0 {
 					order = append(order, p[1])
@@ -707,7 +742,13 @@ func kinesisStats(lines, outs []string, d map[string]int) {
 		}
 		n := 0
 		if w[2] != "-" {
-			n = len(strings.Split(w[2], ","))
+			for _, mm := range strings.Split(w[2], ",") {
+				if strings.HasPrefix(mm, "!") {
+					d["batch_with_refused_record"]++
+				} else {
+					n++
+				}
+			}
 		}
 		d[fmt.Sprintf("batch_size_%d", n)]++
 		if w[3] == "-" {
